@@ -1,5 +1,5 @@
 (* Properties_C13.v — C13: notes; out-of-range indices are refused. *)
-From ElfioV Require Import Bytes Mem Stream SectionData SectionData_proofs Strings Elfio Table Accessors.
+From ElfioV Require Import Bytes Mem Stream SectionData SectionData_proofs Strings Elfio Table Accessors Notes_proofs.
 From Coq Require Import ZifyBool ZifyN ZifyNat.
 Local Open Scope N_scope.
 
@@ -27,6 +27,32 @@ Proof.
   eexists. reflexivity.
 Qed.
 Print Assumptions C13_encoding_shape.
+
+(* a note stored with this encoding anywhere in a section or segment (bytes
+   [pre] before it, [post] after it) is returned unchanged when read at its
+   start position: type, name, descriptor (absent when empty) and its size *)
+Theorem C13_note_returned_unchanged :
+  forall e (pre post : bytes) ty name desc size,
+    let b := pre ++ enc_note e ty name desc ++ post in
+    let pos := lenN pre in
+    lenN name + 4 < 2 ^ 32 -> lenN desc + 3 < 2 ^ 32 ->
+    pos + lenN (enc_note e ty name desc) <= size -> size < 2 ^ 63 ->
+    note_at e (Some b) size pos =
+      Ok (Some (mkNoteview (wrap32 ty) name (if lenN desc =? 0 then None else Some desc) (lenN desc))).
+Proof. exact note_at_roundtrip. Qed.
+Print Assumptions C13_note_returned_unchanged.
+
+(* a new accessor over a table of notes (section or covering segment, whatever
+   precedes and follows the table) finds exactly the notes' start positions *)
+Theorem C13_walker_finds_every_note :
+  forall e (ns : list note3) (pre post : bytes) fuel acc,
+    Forall note_small ns ->
+    let tblb := concat (map (rec3 e) ns) in
+    let size := lenN pre + lenN tblb in
+    size < 2 ^ 30 -> lenN ns < lenN fuel ->
+    note_walk fuel (Some (pre ++ tblb ++ post)) e size (lenN pre) acc = Ok (acc ++ starts_from e (lenN pre) ns).
+Proof. exact note_walk_table. Qed.
+Print Assumptions C13_walker_finds_every_note.
 
 (* the walker over add_note's output finds the notes; reading them back gives
    the original fields (concrete two-note table, both byte orders) *)
